@@ -174,7 +174,9 @@ FRAMES = [('', ''), ('a', 'a'), ('> ', ''), ('- ', ''), ('# ', ''), ('[', '](u)'
           ('~~', ''), ('**', ''), ('$', ''), ('$$', ''), ('[[', ''), ('{{', ''), ('<', ''), ('![', ''), ('``', ''), ('[a](', ''), ('[a]: /u "', ''), ('<!--', ''),
           ('```', ''), ('~~a', 'b~~'), ('[', ']'),
           # a repetition that almost matches a line pattern, spoilt at its very end
-          ('', 'a'), ('', ' a\n'), ('   ', 'x'), ('- ', ' a'), ('> ', 'a')]
+          ('', 'a'), ('', ' a\n'), ('   ', 'x'), ('- ', ' a'), ('> ', 'a'),
+          # the second line of a would-be table: a delimiter row spoilt at its end
+          ('| a | b |\n|', 'x|'), ('a|b\n', 'x'), ('a|b\n-', '|x'), ('para\n| a |\n| ', 'x')]
 
 
 def pumped(t, max_len=4096):
